@@ -10,7 +10,7 @@ EXTENDS ClientProto
 VARIABLE act
 CONSTANTS MaxCalls, MaxLevel
 
-Codes == {120, 150, 200, 220, 226, 227, 229, 230, 250, 257, 331, 332, 333, 350, 426, 500, 550}
+Codes == {120, 150, 200, 220, 226, 227, 229, 230, 250, 257, 331, 332, 333, 350, 426, 500, 510, 550, 551}
 Pls   == {"plain", "epsv", "epsvdead", "pasv", "pasvdead", "mlst"}
 Lines == {"ok", "hit", "dot", "bad"}
 A(raw, off, wait, cmds, depth, parents) == [raw |-> raw, off |-> off, wait |-> wait, cmds |-> cmds, depth |-> depth, parents |-> parents]
@@ -27,27 +27,49 @@ VARIABLE calls
 mvars == <<c, act, calls>>
 
 MCInit == Init /\ act = <<"init">> /\ calls = 0
-MCNext ==
-  \/ calls = 0 /\ Call("connect", NoArg) /\ calls' = 1 /\ act' = <<"call", "connect", NoArg>>
-  \/ /\ calls \in 1..(MaxCalls - 1)
-     /\ \E x \in CallSet : Call(x[1], x[2]) /\ act' = <<"call", x[1], x[2]>>
-     /\ calls' = calls + 1
-  \/ /\ c.out = <<>>
-     /\ c.owed > 0 \/ (calls = 1 /\ c.pc = "CN.w")
-     /\ Len(c.rq) < 2
-     /\ \E k \in Codes, p \in Pls :
-          /\ (p # "plain" => k \in {227, 229, 250})
-          /\ Reply(k, p) /\ act' = <<"reply", c.owed, k, p>>
-     /\ UNCHANGED calls
-  \/ c.out = <<>> /\ calls > 0 /\ CtlEof /\ act' = <<"eof", c.owed>> /\ UNCHANGED calls
-  \/ /\ c.out = <<>> /\ c.sd = "open" /\ Len(c.dq) < 2
-     /\ \E k \in Lines : DData(c.did, k) /\ act' = <<"ddata", c.owed, k>>
-     /\ UNCHANGED calls
-  \/ c.out = <<>> /\ c.sd = "open" /\ DEof(c.did) /\ act' = <<"deof", c.owed>> /\ UNCHANGED calls
-  \/ c.out # <<>> /\ ClientEv(Head(c.out)) /\ act' = <<"cev">> /\ UNCHANGED calls
+ActCall(op, a) == <<"call", op, a.raw, a.off, a.wait, a.cmds, a.depth, a.parents>>
+MCConnect == calls = 0 /\ Call("connect", NoArg) /\ calls' = 1 /\ act' = ActCall("connect", NoArg)
+MCCall ==
+  /\ calls \in 1..(MaxCalls - 1)
+  /\ \E x \in CallSet : Call(x[1], x[2]) /\ act' = ActCall(x[1], x[2])
+  /\ calls' = calls + 1
+\* the server acts only after it has seen what the client did (client events are consumed first): fewer interleavings, same behaviours
+MCReply ==
+  /\ c.out = <<>>
+  /\ c.owed > 0 \/ (calls = 1 /\ c.pc = "CN.w")
+  /\ Len(c.rq) < 2
+  /\ \E k \in Codes, p \in Pls :
+       /\ (p # "plain" => k \in {227, 229, 250})
+       /\ Reply(k, p) /\ act' = <<"reply", c.ns, k, p>>
+  /\ UNCHANGED calls
+MCEof == c.out = <<>> /\ calls > 0 /\ CtlEof /\ act' = <<"eof", c.ns>> /\ UNCHANGED calls
+MCData ==
+  /\ c.out = <<>> /\ c.sd = "open" /\ Len(c.dq) < 2
+  /\ \E k \in Lines : DData(c.did, k) /\ act' = <<"ddata", c.ns, k>>
+  /\ UNCHANGED calls
+MCDataEof == c.out = <<>> /\ c.sd = "open" /\ DEof(c.did) /\ act' = <<"deof", c.ns>> /\ UNCHANGED calls
+MCClientEv == c.out # <<>> /\ ClientEv(Head(c.out)) /\ act' = <<"cev">> /\ UNCHANGED calls
+MCNext == MCConnect \/ MCCall \/ MCReply \/ MCEof \/ MCData \/ MCDataEof \/ MCClientEv
 MCSpec == MCInit /\ [][MCNext]_mvars
 MCConstraint == TLCGet("level") <= MaxLevel /\ c.did <= 4 /\ c.ents <= 2 /\ c.n <= 2
-MCView == <<c, calls>>
+MCView == <<[c EXCEPT !.ns = 0], calls>>
+\* generation only: a server that mostly lets the client get on (codes the waiting point accepts or waits through, shapes that
+\* parse) and sometimes does not, so that simulated behaviours go deep
+GCodes == {k \in Codes : AnyM(AwExp(c) \cup AwWait(c), k)} \cup {226, 500, 550}
+GReply ==
+  /\ c.out = <<>>
+  /\ c.owed > 0 \/ (calls = 1 /\ c.pc = "CN.w")
+  /\ Len(c.rq) < 2
+  /\ \E k \in GCodes, p \in {"plain", "mlst", "short"} :
+       LET q == IF p = "plain" /\ c.pc = "PA1.w" THEN (IF c.arg.cmds[c.try] = "epsv" THEN "epsv" ELSE "pasv")
+                ELSE IF p = "short" THEN (IF c.pc = "PA1.w" THEN "pasvdead" ELSE "plain") ELSE p IN
+       /\ (q = "mlst" => c.pc = "ST0.w")
+       /\ Reply(k, q) /\ act' = <<"reply", c.ns, k, q>>
+  /\ UNCHANGED calls
+GEof == c.out = <<>> /\ calls > 1 /\ c.pc = "idle" /\ CtlEof /\ act' = <<"eof", c.ns>> /\ UNCHANGED calls
+\* generation only: padding lets every simulated behaviour reach the depth at which TLC prints it
+MCPad == act' = <<"pad">> /\ UNCHANGED <<c, calls>>
+GSpec == MCInit /\ [][MCConnect \/ MCCall \/ GReply \/ GEof \/ MCData \/ MCDataEof \/ MCClientEv \/ MCPad]_mvars
 GStop == TLCGet("level") < MaxLevel
 GAlias == [act |-> act]
 =============================================================================
